@@ -22,6 +22,20 @@ def edgeJustified (g : G D) (u : Nat) (d : Dir) (e : Edge) : Bool :=
        else e.2.1 == d.flip && termKmer g.K nv.seq e.2.1 == km)
   | _, _ => false
 
+/-- a link lookup is exact: an answer `(v, s, f)` names a node whose terminal k-mer on side `s` is the queried k-mer
+    (reverse-complemented iff `f`; flipped answers only unstranded; arrival side determined by the flip), and `none` is
+    answered only when no node carries the k-mer at the facing end nor (unstranded) its reverse complement at the same end -/
+def linkExact (g : G D) (km : Seq) (d : Dir) (ans : Option Edge) : Bool :=
+  match ans with
+  | some e =>
+    (match g.nodes[e.1]? with
+     | some nv =>
+       if e.2.2 then (!g.stranded) && e.2.1 == d && termKmer g.K nv.seq e.2.1 == rc km
+       else e.2.1 == d.flip && termKmer g.K nv.seq e.2.1 == km
+     | none => false)
+  | none =>
+    g.nodes.all fun n => termKmer g.K n.seq d.flip != km && (g.stranded || termKmer g.K n.seq d != rc km)
+
 /-- all edges, as reported, are justified and every extension bit that resolves is reported exactly once per base -/
 def edgesSound (g : G D) (all : List (List Edge × List Edge)) : Bool :=
   all.zipIdx.all fun ((le, re), u) => le.all (edgeJustified g u .L) && re.all (edgeJustified g u .R)
